@@ -1,11 +1,13 @@
 #!/bin/bash
 # developer tool: apply every kept seed to /repo in turn, run the quick check of its property, undo; print a table.
 # (edits /repo's working tree: never run while a `vp run` job is active)
+# usage: tools/seed_regress.sh [PROPERTY ...]     (default: all)
 cd /verif
 git -C /repo status --short | grep -q . && { echo "/repo not clean"; exit 9; }
 for d in seeded/*/; do
   id=$(basename $d); p=${id%%-*}
-  git -C /repo apply /verif/$d/patch.diff || { echo "$id: patch does not apply"; continue; }
+  if [ $# -gt 0 ]; then case " $* " in *" $p "*) ;; *) continue;; esac; fi
+  git -C /repo apply /verif/$d/patch.diff 2>/dev/null || { echo "$id: patch does not apply"; continue; }
   out=$(./check $p 2>&1); rc=$?
   ob=$(echo "$out" | grep -E "^  obligation" | head -2 | tr '\n' ' ')
   un=$(echo "$out" | grep -E "^UNDECIDED" | head -1 | cut -c1-150)
